@@ -170,7 +170,7 @@ func main() {
 		type kstr struct{ rec, id string }
 		var strs []kstr
 		c.Part("roundtrip")
-		c.Bound("%d 32-byte keys (all-zero, all-ones, high-bit patterns, pseudo-random): String/Parse round trip for recipient and identity, against the reference encoder", nkeys)
+		c.Bound("%d 32-byte keys (all-zero, all-ones, high-bit patterns, pseudo-random): String/Parse round trip for recipient and identity, against the reference encoder; whole-string case swaps; every two-region case pattern (one case up to every split position, the other after it) of native and plugin strings", nkeys)
 		for ki, k := range keysB {
 			rs := refage.Bech32Encode("age", k)
 			is := strings.ToUpper(refage.Bech32Encode("AGE-SECRET-KEY-", k))
@@ -191,6 +191,14 @@ func main() {
 			// whole-string case swaps
 			judge(fmt.Sprintf("k%d.rec.upper", ki), strings.ToUpper(rs), false)
 			judge(fmt.Sprintf("k%d.id.lower", ki), strings.ToLower(is), false)
+			// case by region: everything before every split position in one case, the rest in the other (in particular:
+			// prefix in its expected case and the whole data part in the opposite one), for native and plugin strings
+			for si, str := range []string{rs, is, plugin.EncodeRecipient("name", k[:ki%20+1]), plugin.EncodeIdentity("name", k[:ki%20+1])} {
+				for p := 0; p <= len(str); p++ {
+					judge(fmt.Sprintf("k%d.s%d.split%d.lu", ki, si, p), strings.ToLower(str[:p])+strings.ToUpper(str[p:]), false)
+					judge(fmt.Sprintf("k%d.s%d.split%d.ul", ki, si, p), strings.ToUpper(str[:p])+strings.ToLower(str[p:]), false)
+				}
+			}
 		}
 		c.Sample(map[string]interface{}{"recipient": strs[0].rec, "identity": strs[0].id})
 
